@@ -218,19 +218,22 @@ func (server *SugarDB) handleCommand(ctx context.Context, message []byte, conn *
 		}
 	}
 
-	// If the command is a write command, wait for state copy to finish.
-	if internal.IsWriteCommand(command, subCommand) {
-		for {
-			if !server.stateCopyInProgress.Load() {
-				server.stateMutationInProgress.Store(true)
-				break
-			}
-		}
-		// Whatever the outcome of the command (success, error, not leader), the mutation is over when we return.
-		defer server.stateMutationInProgress.Store(false)
-	}
-
 	if !server.isInCluster() || !synchronize {
+		// If the command is a write command, wait for state copy to finish.
+		// A replicated command is not run here but by the raft state machine, which also takes the
+		// state copy for a raft snapshot: waiting here with the flag set would block that copy and,
+		// with it, the very log entry this call waits for.
+		if internal.IsWriteCommand(command, subCommand) {
+			for {
+				if !server.stateCopyInProgress.Load() {
+					server.stateMutationInProgress.Store(true)
+					break
+				}
+			}
+			// Whatever the outcome of the command (success or error), the mutation is over when we return.
+			defer server.stateMutationInProgress.Store(false)
+		}
+
 		// The handler and the log record of the command form one atomic step.
 		defer server.lockCommand(command, subCommand)()
 
